@@ -66,7 +66,11 @@ def r3_const_uses(toks, const_names, self_is_bnum, log):
             # find the path head
             j = i - 2
             head = toks[j]
-            if head == '>':
+            if head == '>' and i >= 4 and toks[i - 4:i - 1] == ['<', 'Self', '>'] and (i < 5 or toks[i - 5] != '::'):
+                # qualified-self form `< Self > :: X` (as produced by `<$ty>::ONE` in macros)
+                j = i - 3
+                head = 'Self'
+            elif head == '>':
                 # generic args `:: < N > ::` : walk back to '<'
                 d = 0
                 while j >= 0:
@@ -167,6 +171,17 @@ def r4_r5_params(sig, body, log):
     if prologue:
         body2 = [body2[0]] + prologue + body2[1:]
     return sig2, body2
+
+
+def r16_pub_super(sig, log):
+    """`pub(super)` in a signature -> `pub(crate)`: the generated file flattens bnum's module tree
+    (all inherent impls sit at the crate root), so `super` has no meaning there; visibility only."""
+    out = list(sig)
+    for i in range(len(out) - 3):
+        if out[i] == 'pub' and out[i + 1] == '(' and out[i + 2] == 'super' and out[i + 3] == ')':
+            out[i + 2] = 'crate'
+            log['R16'] = log.get('R16', 0) + 1
+    return out
 
 
 def r6_int_ident(toks, log):
